@@ -1,7 +1,7 @@
 // c15 replays the terminated behaviours of spec/Generate.tla on the real generatecmd.Run of the
 // repository under test (in-process; the check builds this harness with -race).
 //
-//	c15 run <cases.ndjson> <workdir> <seed> <reps> <trace-out> <max-hooked-runs> [corrupt]
+//	c15 run <cases.ndjson> <workdir> <seed> <reps> <trace-out> <max-hooked-runs> <max-traced-runs> [corrupt]
 //
 // Each case is a tree (files with abstract contents and modification-time classes), the flags, and the
 // trees / exit status the specification predicts after the first and after the second run. The harness
@@ -258,13 +258,17 @@ type traceLine map[string]any
 
 func main() {
 	if len(os.Args) < 7 || os.Args[1] != "run" {
-		vhlib.Fatal("usage: c15 run <cases.ndjson> <workdir> <seed> <reps> <trace-out> <max-hooked-runs> [corrupt]")
+		vhlib.Fatal("usage: c15 run <cases.ndjson> <workdir> <seed> <reps> <trace-out> <max-hooked-runs> <max-traced-runs> [corrupt]")
 	}
 	casesPath, work := os.Args[2], os.Args[3]
 	seed, _ := strconv.ParseInt(os.Args[4], 10, 64)
 	reps, _ := strconv.Atoi(os.Args[5])
 	tracePath := os.Args[6]
-	corrupt := len(os.Args) > 8 && os.Args[8] == "corrupt"
+	corrupt := len(os.Args) > 9 && os.Args[9] == "corrupt"
+	maxTraced := 500
+	if len(os.Args) > 8 {
+		maxTraced, _ = strconv.Atoi(os.Args[8])
+	}
 	maxHooked := 0
 	if len(os.Args) > 7 {
 		maxHooked, _ = strconv.Atoi(os.Args[7])
@@ -348,7 +352,6 @@ func main() {
 		defer traceOut.Close()
 	}
 	// traced runs are spread evenly over the hooked jobs
-	maxTraced := 500
 	traceEvery := (len(hooked) + maxTraced - 1) / maxTraced
 	if traceEvery < 1 {
 		traceEvery = 1
@@ -482,7 +485,7 @@ func main() {
 		close(jobCh)
 		wg.Wait()
 	}
-	runJobs(jobs, 8)
+	runJobs(jobs, 12)
 	runJobs(hooked, 1)
 	vhlib.Summary(map[string]any{"cases": len(cases), "runs": runs, "jobs": len(jobs) + len(hooked), "hooked_runs": len(hooked), "fails": fails, "worker_counts": workers, "reps": reps,
 		"hooks": hooksPresent, "traced_runs": traced, "hook_events": hookEventCount(), "perturbations": perturbCount(), "signatures": sigCount})
